@@ -152,6 +152,8 @@ class EHistCheck(Check):
             src += fsrc
             exp = exp + list(fexp)
             nfinal = len(fexp)
+        if hasattr(m, "epilogue"):
+            src += m.epilogue(tpl)
         files = {"x.ms": src}
         files.update(m.files(tpl))
         d = driver.fresh_dir()
